@@ -893,12 +893,11 @@ class ExpectationPropagation:
         )
         self.mutation_edges[singletons] = switched_edges
         self.mutation_nodes[singletons] = self.edge_children[switched_edges]
-        switched = self.mutation_phase < 0.5
-        self.mutation_phase[switched] = 1 - self.mutation_phase[switched]
-        logger.info(f"Switched phase of {np.sum(switched)} singletons")
 
         if rescale_intervals > 0 and rescale_iterations > 0:
             rescale_timing = time.time()
+            # NB: at this point `mutation_phase` is still the probability that a
+            # singleton lies on the first edge of its block, as `rescale` assumes
             self.rescale(
                 rescale_intervals=rescale_intervals,
                 rescale_iterations=rescale_iterations,
@@ -908,6 +907,11 @@ class ExpectationPropagation:
             )
             rescale_timing -= time.time()
             logger.info(f"Timescale rescaled in {abs(rescale_timing):.2f} seconds")
+
+        # report the phase probability of the edge each singleton was assigned to
+        switched = self.mutation_phase < 0.5
+        self.mutation_phase[switched] = 1 - self.mutation_phase[switched]
+        logger.info(f"Switched phase of {np.sum(switched)} singletons")
 
     def node_moments(self):
         # Posterior mean and variance of node ages (equivalent to node_posteriors)
